@@ -22,7 +22,7 @@ class CursFeatureWriter(BaseFeatureWriter):
     def _getCursiveAnchorPairs(glyphs):
         anchors = set()
         for _, glyph in glyphs:
-            anchors.update(a.name for a in glyph.anchors)
+            anchors.update(a.name for a in glyph.anchors if a.name)
 
         anchorPairs = []
         if "entry" in anchors and "exit" in anchors:
